@@ -8,7 +8,7 @@ use std::sync::atomic::{AtomicU64, AtomicUsize, Ordering};
 use std::sync::{Arc, Barrier, Mutex};
 use std::task::{Context, Poll, Waker};
 
-use nexosim::verif::task::{queued, spawn, spawn_and_forget, take_runnable, VCancel, VPromise, VRunnable, VStage};
+use nexosim::verif::task::{queued, spawn_and_forget_out, spawn_out, take_runnable, VCancel, VPromiseOut, VRunnable, VStage};
 use serde::Deserialize;
 use serde_json::{json, Value};
 
@@ -95,14 +95,15 @@ impl Future for ScriptFuture {
 static OUT_ID: AtomicUsize = AtomicUsize::new(1);
 static NEXT_TAG: AtomicUsize = AtomicUsize::new(1);
 
-/// The output type of the task is u64, which has no destructor: whether the output was dropped is
-/// observed through the facade's promise instead (a Ready stage hands it over).
+/// The output of the task counts its drops (facade `spawn_out`): released exactly once means one counted drop, whether
+/// the promise took it (and dropped it on the spot), a cancellation dropped it, or the last handle did.
 struct World {
     tag: usize,
     c: Arc<Counters>,
     pool: Arc<Mutex<Vec<Waker>>>,
     token: Mutex<Option<VCancel>>,
-    promise: Mutex<Option<VPromise>>,
+    promise: Mutex<Option<VPromiseOut>>,
+    out_drops: Arc<AtomicUsize>,
 }
 
 fn new_world(inp: &Input) -> World {
@@ -110,20 +111,21 @@ fn new_world(inp: &Input) -> World {
     let c = Arc::new(Counters::default());
     let pool = Arc::new(Mutex::new(Vec::new()));
     let fut = ScriptFuture { script: inp.script.clone(), c: c.clone(), pool: pool.clone(), _out: None };
+    let out_drops = Arc::new(AtomicUsize::new(0));
     let (promise, token) = if inp.with_promise {
-        let (p, t) = spawn(fut, tag);
+        let (p, t) = spawn_out(fut, tag, out_drops.clone());
         (Some(p), t)
     } else {
-        (None, spawn_and_forget(fut, tag))
+        (None, spawn_and_forget_out(fut, tag, out_drops.clone()))
     };
-    World { tag, c, pool, token: Mutex::new(Some(token)), promise: Mutex::new(promise) }
+    World { tag, c, pool, token: Mutex::new(Some(token)), promise: Mutex::new(promise), out_drops }
 }
 
 enum Handle {
     Run(VRunnable),
     Waker(Waker),
     Token(VCancel),
-    Promise(VPromise),
+    Promise(VPromiseOut),
 }
 
 /// Takes the handle the operation needs (None if it is not available).
@@ -198,6 +200,7 @@ fn perform(w: &World, op: &str, h: Handle) -> &'static str {
 fn obs(w: &World) -> Value {
     json!({"futDropped": w.c.fut_dropped.load(Ordering::SeqCst) > 0,
            "outTaken": w.c.out_taken.load(Ordering::SeqCst) > 0,
+           "outDrops": w.out_drops.load(Ordering::SeqCst),
            "npolls": w.c.npolls.load(Ordering::SeqCst), "runq": queued(w.tag),
            "futDrops": w.c.fut_dropped.load(Ordering::SeqCst), "concurrentPolls": w.c.concurrent.load(Ordering::SeqCst)})
 }
